@@ -79,10 +79,19 @@ enum Ev {
     Change(i32, i32, i32, i32, i32),
     Old(i32, i32, i32),
     Input(i32, [i32; 10]),
-    Other,
+    /// a record passed through unchanged: its canonical text
+    Other(String),
 }
 
 fn item_str(it: &Item) -> (String, Ev) {
+    let (s, ev) = item_str0(it);
+    match ev {
+        Ev::Other(_) => (s.clone(), Ev::Other(s)),
+        ev => (s, ev),
+    }
+}
+
+fn item_str0(it: &Item) -> (String, Ev) {
     match it {
         Item::TickStart(t) => (fields("TickStart", vec![i(*t)]), Ev::Start(*t)),
         Item::TickEnd(t) => (fields("TickEnd", vec![i(*t)]), Ev::End(*t)),
@@ -97,38 +106,38 @@ fn item_str(it: &Item) -> (String, Ev) {
             v.extend(p.input.iter().map(|x| i(*x)));
             (fields("Input", v), Ev::Input(p.cid, p.input))
         }
-        Item::Message(m) => (fields("Message", vec![i(m.cid), h(m.msg)]), Ev::Other),
-        Item::Join(m) => (fields("Join", vec![i(m.cid)]), Ev::Other),
-        Item::Drop(m) => (fields("Drop", vec![i(m.cid), h(m.reason)]), Ev::Other),
+        Item::Message(m) => (fields("Message", vec![i(m.cid), h(m.msg)]), Ev::Other(String::new())),
+        Item::Join(m) => (fields("Join", vec![i(m.cid)]), Ev::Other(String::new())),
+        Item::Drop(m) => (fields("Drop", vec![i(m.cid), h(m.reason)]), Ev::Other(String::new())),
         Item::ConsoleCommand(m) => {
             let mut v = vec![i(m.cid), m.flag_mask.to_string(), h(m.cmd)];
             v.extend(m.args.iter().map(|a| h(a)));
-            (fields("ConsoleCommand", v), Ev::Other)
+            (fields("ConsoleCommand", v), Ev::Other(String::new()))
         }
-        Item::Antibot(m) => (fields("Antibot", vec![h(m.data)]), Ev::Other),
-        Item::AuthInit(m) => (fields("AuthInit", vec![i(m.cid), i(m.level), h(m.identity)]), Ev::Other),
-        Item::AuthLogin(m) => (fields("AuthLogin", vec![i(m.cid), i(m.level), h(m.identity)]), Ev::Other),
-        Item::AuthLogout(m) => (fields("AuthLogout", vec![i(m.cid)]), Ev::Other),
+        Item::Antibot(m) => (fields("Antibot", vec![h(m.data)]), Ev::Other(String::new())),
+        Item::AuthInit(m) => (fields("AuthInit", vec![i(m.cid), i(m.level), h(m.identity)]), Ev::Other(String::new())),
+        Item::AuthLogin(m) => (fields("AuthLogin", vec![i(m.cid), i(m.level), h(m.identity)]), Ev::Other(String::new())),
+        Item::AuthLogout(m) => (fields("AuthLogout", vec![i(m.cid)]), Ev::Other(String::new())),
         Item::Ddnetver(m) => (
             fields("Ddnetver", vec![i(m.cid), h(m.connection_id.as_bytes()), i(m.ddnet_version), h(m.ddnet_version_str)]),
-            Ev::Other,
+            Ev::Other(String::new()),
         ),
-        Item::DdnetverOld(m) => (fields("DdnetverOld", vec![i(m.cid), i(m.ddnet_version)]), Ev::Other),
-        Item::Joinver6(m) => (fields("Joinver6", vec![i(m.cid)]), Ev::Other),
-        Item::Joinver7(m) => (fields("Joinver7", vec![i(m.cid)]), Ev::Other),
-        Item::PlayerFinish(m) => (fields("PlayerFinish", vec![i(m.cid), i(m.time_ticks)]), Ev::Other),
-        Item::PlayerName(m) => (fields("PlayerName", vec![i(m.cid), h(m.name)]), Ev::Other),
-        Item::PlayerReady(m) => (fields("PlayerReady", vec![i(m.cid)]), Ev::Other),
-        Item::PlayerRejoin(m) => (fields("PlayerRejoin", vec![i(m.cid)]), Ev::Other),
-        Item::PlayerSwap(m) => (fields("PlayerSwap", vec![i(m.cid1), i(m.cid2)]), Ev::Other),
-        Item::PlayerTeam(m) => (fields("PlayerTeam", vec![i(m.cid), i(m.team)]), Ev::Other),
-        Item::TeamFinish(m) => (fields("TeamFinish", vec![i(m.team), i(m.time_ticks)]), Ev::Other),
-        Item::TeamLoadFailure(m) => (fields("TeamLoadFailure", vec![i(m.team)]), Ev::Other),
-        Item::TeamLoadSuccess(m) => (fields("TeamLoadSuccess", vec![i(m.team), h(m.save_uuid.as_bytes()), h(m.save)]), Ev::Other),
-        Item::TeamPractice(m) => (fields("TeamPractice", vec![i(m.team), i(m.practice)]), Ev::Other),
-        Item::TeamSaveFailure(m) => (fields("TeamSaveFailure", vec![i(m.team)]), Ev::Other),
-        Item::TeamSaveSuccess(m) => (fields("TeamSaveSuccess", vec![i(m.team), h(m.save_uuid.as_bytes()), h(m.save)]), Ev::Other),
-        Item::UnknownEx(m) => (fields("UnknownEx", vec![h(m.uuid.as_bytes()), h(m.data)]), Ev::Other),
+        Item::DdnetverOld(m) => (fields("DdnetverOld", vec![i(m.cid), i(m.ddnet_version)]), Ev::Other(String::new())),
+        Item::Joinver6(m) => (fields("Joinver6", vec![i(m.cid)]), Ev::Other(String::new())),
+        Item::Joinver7(m) => (fields("Joinver7", vec![i(m.cid)]), Ev::Other(String::new())),
+        Item::PlayerFinish(m) => (fields("PlayerFinish", vec![i(m.cid), i(m.time_ticks)]), Ev::Other(String::new())),
+        Item::PlayerName(m) => (fields("PlayerName", vec![i(m.cid), h(m.name)]), Ev::Other(String::new())),
+        Item::PlayerReady(m) => (fields("PlayerReady", vec![i(m.cid)]), Ev::Other(String::new())),
+        Item::PlayerRejoin(m) => (fields("PlayerRejoin", vec![i(m.cid)]), Ev::Other(String::new())),
+        Item::PlayerSwap(m) => (fields("PlayerSwap", vec![i(m.cid1), i(m.cid2)]), Ev::Other(String::new())),
+        Item::PlayerTeam(m) => (fields("PlayerTeam", vec![i(m.cid), i(m.team)]), Ev::Other(String::new())),
+        Item::TeamFinish(m) => (fields("TeamFinish", vec![i(m.team), i(m.time_ticks)]), Ev::Other(String::new())),
+        Item::TeamLoadFailure(m) => (fields("TeamLoadFailure", vec![i(m.team)]), Ev::Other(String::new())),
+        Item::TeamLoadSuccess(m) => (fields("TeamLoadSuccess", vec![i(m.team), h(m.save_uuid.as_bytes()), h(m.save)]), Ev::Other(String::new())),
+        Item::TeamPractice(m) => (fields("TeamPractice", vec![i(m.team), i(m.practice)]), Ev::Other(String::new())),
+        Item::TeamSaveFailure(m) => (fields("TeamSaveFailure", vec![i(m.team)]), Ev::Other(String::new())),
+        Item::TeamSaveSuccess(m) => (fields("TeamSaveSuccess", vec![i(m.team), h(m.save_uuid.as_bytes()), h(m.save)]), Ev::Other(String::new())),
+        Item::UnknownEx(m) => (fields("UnknownEx", vec![h(m.uuid.as_bytes()), h(m.data)]), Ev::Other(String::new())),
     }
 }
 
@@ -159,10 +168,35 @@ struct Out {
     evs: Vec<Ev>,
     fin: String,
     header_version: Option<i32>,
+    /// `Reader::cids().end` after the last call
+    cids_end: i32,
+    /// `Reader::player_pos` / `Reader::input` after the last call, for the client ids asked for
+    final_pos: Vec<(i32, Option<(i32, i32)>)>,
+    final_inp: Vec<(i32, Option<[i32; 10]>)>,
+}
+
+/// Non-negative client ids that occur in the stream's complete records (for the final table queries).
+fn cids_of_interest(stream: &[u8], has_ex: bool) -> Vec<i32> {
+    let mut v: Vec<i32> = split_records(stream, has_ex)
+        .iter()
+        .filter_map(|m| match m {
+            Msg::Diff(c, _, _) | Msg::New(c, _, _) | Msg::Old(c) | Msg::InputDiff(c, _) | Msg::InputNew(c, _) => Some(*c),
+            _ => None,
+        })
+        .filter(|c| *c >= 0)
+        .collect();
+    v.sort();
+    v.dedup();
+    v.truncate(300);
+    v
 }
 
 /// Reads header + stream with the given read sizes; `Err` = the reader panicked.
 fn read_all(total: &[u8], ds: &[usize]) -> Result<Out, String> {
+    read_all_q(total, ds, &[])
+}
+
+fn read_all_q(total: &[u8], ds: &[usize], ask: &[i32]) -> Result<Out, String> {
     catch(|| {
         let mut cb = FragCb { data: total.to_vec(), pos: 0, ds: ds.iter().cloned().collect(), calls: 0 };
         let mut buf = Buffer::new();
@@ -175,7 +209,7 @@ fn read_all(total: &[u8], ds: &[usize]) -> Result<Out, String> {
             Ok(x) => x,
             Err(e) => {
                 let fin = format!("err:{}", err_str(&e));
-                return Out { line: format!("{} 0 0 -", fin), evs, fin, header_version: None };
+                return Out { line: format!("{} 0 0 -", fin), evs, fin, header_version: None, cids_end: 0, final_pos: vec![], final_inp: vec![] };
             }
         };
         let mut items: Vec<String> = vec![];
@@ -199,8 +233,121 @@ fn read_all(total: &[u8], ds: &[usize]) -> Result<Out, String> {
         }
         let maxcid = rd.cids().end;
         let line = format!("{} {} {} {}", fin, maxcid, items.len(), if items.is_empty() { "-".to_string() } else { items.join(" ") });
-        Out { line, evs, fin, header_version: Some(ver) }
+        let final_pos = ask.iter().map(|&c| (c, rd.player_pos(c).map(|p| (p.x, p.y)))).collect();
+        let final_inp = ask.iter().map(|&c| (c, rd.input(c))).collect();
+        Out { line, evs, fin, header_version: Some(ver), cids_end: maxcid, final_pos, final_inp }
     })
+}
+
+/// The same through the public `libtw2_teehistorian::Reader` (`file.rs`: a `File`, `Ok(0)` = EOF).
+/// `ds` empty: a regular temporary file; otherwise a socket pair whose writer sends the stream in
+/// pieces of these sizes (how the kernel hands them to `read` is not under our control, which is
+/// fine: the expected output does not depend on it).
+fn read_all_file(total: &[u8], ds: &[usize], ask: &[i32]) -> Result<Out, String> {
+    use libtw2_teehistorian::Error as FErr;
+    use std::os::fd::OwnedFd;
+    use std::sync::atomic::{AtomicU64, Ordering};
+    static SEQ: AtomicU64 = AtomicU64::new(0);
+    let total_v = total.to_vec();
+    let ds_v = ds.to_vec();
+    let mut tmp: Option<std::path::PathBuf> = None;
+    let mut writer: Option<std::thread::JoinHandle<()>> = None;
+    let file: std::fs::File = if ds.is_empty() {
+        let pth = std::env::temp_dir().join(format!("tw-teehist-{}-{}.th", std::process::id(), SEQ.fetch_add(1, Ordering::SeqCst)));
+        std::fs::write(&pth, &total_v).expect("write temp file");
+        let f = std::fs::File::open(&pth).expect("open temp file");
+        tmp = Some(pth);
+        f
+    } else {
+        let (a, b) = std::os::unix::net::UnixStream::pair().expect("socketpair");
+        writer = Some(std::thread::spawn(move || {
+            use std::io::Write as _;
+            let mut a = a;
+            let mut pos = 0;
+            for d in ds_v {
+                let n = d.min(total_v.len() - pos);
+                if n > 0 && a.write_all(&total_v[pos..pos + n]).is_err() {
+                    return;
+                }
+                pos += n;
+                std::thread::yield_now();
+            }
+            let _ = a.write_all(&total_v[pos..]);
+        }));
+        std::fs::File::from(OwnedFd::from(b))
+    };
+    let r = catch(|| {
+        let mut buf = Buffer::new();
+        let mut evs = vec![];
+        let ferr = |e: &FErr| match e {
+            FErr::Teehistorian(e) => err_str(&Error::Teehistorian(clone_ferr(e))),
+            FErr::Io(e) => format!("Io:{:?}", e.kind()),
+        };
+        let new = match libtw2_teehistorian::Reader::new(file, &mut buf) {
+            Ok((hd, rd)) => Ok((hd.version, rd)),
+            Err(e) => Err(e),
+        };
+        let (ver, mut rd) = match new {
+            Ok(x) => x,
+            Err(e) => {
+                let fin = format!("err:{}", ferr(&e));
+                return Out { line: format!("{} 0 0 -", fin), evs, fin, header_version: None, cids_end: 0, final_pos: vec![], final_inp: vec![] };
+            }
+        };
+        let mut items: Vec<String> = vec![];
+        let fin;
+        loop {
+            match rd.read(&mut buf) {
+                Ok(Some(it)) => {
+                    let (s, ev) = item_str(&it);
+                    items.push(s);
+                    evs.push(ev);
+                }
+                Ok(None) => {
+                    fin = "end".to_string();
+                    break;
+                }
+                Err(e) => {
+                    fin = format!("err:{}", ferr(&e));
+                    break;
+                }
+            }
+        }
+        let maxcid = rd.cids().end;
+        let line = format!("{} {} {} {}", fin, maxcid, items.len(), if items.is_empty() { "-".to_string() } else { items.join(" ") });
+        let final_pos = ask.iter().map(|&c| (c, rd.player_pos(c).map(|p| (p.x, p.y)))).collect();
+        let final_inp = ask.iter().map(|&c| (c, rd.input(c))).collect();
+        Out { line, evs, fin, header_version: Some(ver), cids_end: maxcid, final_pos, final_inp }
+    });
+    // the reader (and with it our end of the socket) is gone: the writer cannot block any more
+    if let Some(w) = writer {
+        let _ = w.join();
+    }
+    if let Some(pth) = tmp {
+        let _ = std::fs::remove_file(pth);
+    }
+    r
+}
+
+/// `format::Error` is not `Clone`; rebuild the value for the shared error printer.
+fn clone_ferr(e: &format::Error) -> format::Error {
+    use format::Error as E;
+    match e {
+        E::Header(_) => E::UnknownVersion, // printed as a header problem below; never produced after a valid header
+        E::Item(item::Error::UnknownType(v)) => E::Item(item::Error::UnknownType(*v)),
+        E::Item(item::Error::NegativeDt) => E::Item(item::Error::NegativeDt),
+        E::Item(item::Error::NegativeNumArgs) => E::Item(item::Error::NegativeNumArgs),
+        E::Item(item::Error::NumArgsTooLarge) => E::Item(item::Error::NumArgsTooLarge),
+        E::UnknownVersion => E::UnknownVersion,
+        E::TickOverflow => E::TickOverflow,
+        E::UnexpectedEnd => E::UnexpectedEnd,
+        E::InvalidClientId => E::InvalidClientId,
+        E::PlayerNewDuplicate => E::PlayerNewDuplicate,
+        E::PlayerDiffWithoutNew => E::PlayerDiffWithoutNew,
+        E::PlayerOldWithoutNew => E::PlayerOldWithoutNew,
+        E::InputNewDuplicate => E::InputNewDuplicate,
+        E::InputDiffWithoutNew => E::InputDiffWithoutNew,
+    }
 }
 
 fn parse_frag(total: usize, s: &str) -> Option<Vec<usize>> {
@@ -234,7 +381,8 @@ enum Msg {
     Skip(i32),
     InputDiff(i32, [i32; 10]),
     InputNew(i32, [i32; 10]),
-    Other,
+    /// any other record, with its `cid` field if it has one and the text of the item it must be reported as
+    Other(Option<i32>, String),
     Finish,
 }
 
@@ -307,44 +455,92 @@ fn split_records(stream: &[u8], has_ex: bool) -> Vec<Msg> {
                 -5 => Msg::InputDiff(c.int()?, c.ints10()?),
                 -6 => Msg::InputNew(c.int()?, c.ints10()?),
                 -7 => {
-                    c.int()?;
+                    let cid = c.int()?;
                     let n = c.int()?;
                     if n < 0 {
                         return None;
                     }
+                    let d0 = c.p;
                     c.skip(n as usize)?;
-                    Msg::Other
+                    Msg::Other(Some(cid), format!("Message({};{})", cid, to_hex(&c.b[d0..c.p])))
                 }
                 -8 => {
-                    c.int()?;
-                    Msg::Other
+                    let cid = c.int()?;
+                    Msg::Other(Some(cid), format!("Join({})", cid))
                 }
                 -9 => {
-                    c.int()?;
+                    let cid = c.int()?;
+                    let s0 = c.p;
                     c.string()?;
-                    Msg::Other
+                    Msg::Other(Some(cid), format!("Drop({};{})", cid, to_hex(&c.b[s0..c.p - 1])))
                 }
                 -10 => {
-                    c.int()?;
-                    c.int()?;
+                    let cid = c.int()?;
+                    let flags = c.int()?;
+                    let mut parts = vec![cid.to_string(), (flags as u32).to_string()];
+                    let s0 = c.p;
                     c.string()?;
+                    parts.push(to_hex(&c.b[s0..c.p - 1]));
                     let n = c.int()?;
                     if n < 0 || n > 16 {
                         return None;
                     }
                     for _ in 0..n {
+                        let s0 = c.p;
                         c.string()?;
+                        parts.push(to_hex(&c.b[s0..c.p - 1]));
                     }
-                    Msg::Other
+                    Msg::Other(Some(cid), format!("ConsoleCommand({})", parts.join(";")))
                 }
                 -11 if has_ex => {
+                    let start = c.p;
                     c.skip(16)?;
+                    let uuid = &c.b[start..start + 16];
                     let n = c.int()?;
                     if n < 0 {
                         return None;
                     }
+                    let pstart = c.p;
                     c.skip(n as usize)?;
-                    Msg::Other
+                    // payload layout per doc/teehistorian.md (i int, s string, u uuid); a payload
+                    // that is too short for its layout is not a complete record
+                    let mut cid = None;
+                    let payload = &c.b[pstart..pstart + n as usize];
+                    let text;
+                    if let Some((name, _, layout, has_cid)) = EX_LAYOUT.iter().find(|e| e.1 == uuid) {
+                        let mut pc = Cur { b: payload, p: 0 };
+                        let mut parts: Vec<String> = vec![];
+                        for (k, f) in layout.chars().enumerate() {
+                            match f {
+                                'i' => {
+                                    let v = pc.int()?;
+                                    if k == 0 && *has_cid {
+                                        cid = Some(v);
+                                    }
+                                    parts.push(v.to_string());
+                                }
+                                's' => {
+                                    let s0 = pc.p;
+                                    pc.string()?;
+                                    parts.push(to_hex(&payload[s0..pc.p - 1]));
+                                }
+                                _ => {
+                                    let s0 = pc.p;
+                                    pc.skip(16)?;
+                                    parts.push(to_hex(&payload[s0..pc.p]));
+                                }
+                            }
+                        }
+                        if layout.is_empty() {
+                            parts.push(to_hex(payload)); // antibot: the whole payload
+                        }
+                        // snake_case -> CamelCase
+                        let camel: String = name.split('_').map(|w| w[..1].to_uppercase() + &w[1..]).collect();
+                        text = format!("{}({})", camel, parts.join(";"));
+                    } else {
+                        text = format!("UnknownEx({};{})", to_hex(uuid), to_hex(payload));
+                    }
+                    Msg::Other(cid, text)
                 }
                 _ => return None,
             })
@@ -512,16 +708,55 @@ fn oracle_structure(stream: &[u8], has_ex: bool, out: &Out, o: &mut Oracle, ctx:
                     c == c2 && (0..10).all(|k| w(s[k]) == b[k])
                 }
             },
-            (Msg::Other, Ev::Other) => true,
+            (Msg::Other(_, want), Ev::Other(got)) => want == got,
             _ => false,
         };
         if !ok {
             let tag = match m {
                 Msg::InputNew(..) | Msg::InputDiff(..) => "C17/input-not-running-sum",
-                Msg::Other => "C17/item-kind-mismatch",
+                Msg::Other(..) => "C17/item-differs-from-record",
                 _ => "C17/position-not-running-sum",
             };
             o.fail(tag, format!("record {:?} reported as {:?} {}", m, ev, ctx));
+            return;
+        }
+    }
+    if out.fin != "end" {
+        return;
+    }
+    // 4. `cids()` covers exactly 0..=largest client id any record carried
+    let max_cid = msgs
+        .iter()
+        .filter_map(|m| match m {
+            Msg::Diff(c, _, _) | Msg::New(c, _, _) | Msg::Old(c) | Msg::InputDiff(c, _) | Msg::InputNew(c, _) => Some(*c),
+            Msg::Other(c, _) => *c,
+            _ => None,
+        })
+        .max()
+        .unwrap_or(-1)
+        .max(-1);
+    let expected_end = max_cid.saturating_add(1);
+    if out.cids_end != expected_end {
+        o.fail("C17/cids-range", format!("cids().end = {} but the largest client id in the stream is {} {}", out.cids_end, max_cid, ctx));
+    }
+    // 5. the tables the reader exposes afterwards hold the same running sums
+    for (c, p) in &out.final_pos {
+        let e = pos.get(c).map(|p| (w(p.0), w(p.1)));
+        if *p != e {
+            o.fail("C17/table-not-running-sum", format!("player_pos({}) = {:?}, running sums give {:?} {}", c, p, e, ctx));
+            break;
+        }
+    }
+    for (c, v) in &out.final_inp {
+        let e = inp.get(c).map(|s| {
+            let mut a = [0i32; 10];
+            for k in 0..10 {
+                a[k] = w(s[k]);
+            }
+            a
+        });
+        if *v != e {
+            o.fail("C17/table-not-running-sum", format!("input({}) = {:?}, running sums give {:?} {}", c, v, e, ctx));
             break;
         }
     }
@@ -539,7 +774,7 @@ fn has_ex_of(ver: &str) -> bool {
 impl Runner for R {
     fn run(&mut self, t: &[&str], o: &mut Oracle) -> String {
         match t {
-            [op @ ("run" | "hash"), ver, hh, sh, frag] => {
+            [op @ ("run" | "hash" | "file"), ver, hh, sh, frag] => {
                 let hdr = parse_hex(hh).unwrap();
                 let stream = parse_hex(sh).unwrap();
                 let mut total = hdr.clone();
@@ -548,9 +783,10 @@ impl Runner for R {
                     Some(d) => d,
                     None => return "bad-op".to_string(),
                 };
-                let r = read_all(&total, &ds);
+                let ask = cids_of_interest(&stream, has_ex_of(ver));
+                let r = if *op == "file" { read_all_file(&total, &ds, &ask) } else { read_all_q(&total, &ds, &ask) };
                 // oracle: independent of the fragmentation; no panic; tick structure; sums
-                let whole = if ds.is_empty() { Ok(None) } else { read_all(&total, &[]).map(Some) };
+                let whole = if ds.is_empty() && *op != "file" { Ok(None) } else { read_all(&total, &[]).map(Some) };
                 match (&r, &whole) {
                     (Ok(a), Ok(b)) => {
                         if b.as_ref().map(|b| a.line != b.line).unwrap_or(false) {
@@ -571,7 +807,7 @@ impl Runner for R {
                 match r {
                     Err(_) => "panic".to_string(),
                     Ok(out) => {
-                        if *op == "run" {
+                        if *op != "hash" {
                             out.line
                         } else {
                             format!("h {}", fnv_bytes(FNV_OFFSET, out.line.as_bytes()))
@@ -584,7 +820,7 @@ impl Runner for R {
                 let stream = parse_hex(sh).unwrap();
                 let mut total = hdr.clone();
                 total.extend_from_slice(&stream);
-                let whole = read_all(&total, &[]);
+                let whole = read_all_q(&total, &[], &cids_of_interest(&stream, has_ex_of(ver)));
                 match &whole {
                     Ok(w) if w.header_version.is_some() => oracle_structure(&stream, has_ex_of(ver), w, o, "(unfragmented)"),
                     Ok(_) => {}
@@ -685,6 +921,32 @@ impl W {
         self.0.extend_from_slice(d);
     }
 }
+
+/// Extension records: payload layout (i int, s string, u uuid) and whether the first field is the
+/// client id, transcribed from doc/teehistorian.md (and the struct definitions for the records
+/// the document does not list); used only by the oracle's record splitter.
+const EX_LAYOUT: &[(&str, [u8; 16], &str, bool)] = &[
+    ("antibot", item::UUID_ANTIBOT, "", false),
+    ("auth_init", item::UUID_AUTH_INIT, "iis", true),
+    ("auth_login", item::UUID_AUTH_LOGIN, "iis", true),
+    ("auth_logout", item::UUID_AUTH_LOGOUT, "i", true),
+    ("ddnetver", item::UUID_DDNETVER, "iuis", true),
+    ("ddnetver_old", item::UUID_DDNETVER_OLD, "ii", true),
+    ("joinver6", item::UUID_JOINVER6, "i", true),
+    ("joinver7", item::UUID_JOINVER7, "i", true),
+    ("player_finish", item::UUID_PLAYER_FINISH, "ii", true),
+    ("player_name", item::UUID_PLAYER_NAME, "is", true),
+    ("player_ready", item::UUID_PLAYER_READY, "i", true),
+    ("player_rejoin", item::UUID_PLAYER_REJOIN, "i", true),
+    ("player_swap", item::UUID_PLAYER_SWAP, "ii", false),
+    ("player_team", item::UUID_PLAYER_TEAM, "ii", true),
+    ("team_finish", item::UUID_TEAM_FINISH, "ii", false),
+    ("team_load_failure", item::UUID_TEAM_LOAD_FAILURE, "i", false),
+    ("team_load_success", item::UUID_TEAM_LOAD_SUCCESS, "ius", false),
+    ("team_practice", item::UUID_TEAM_PRACTICE, "ii", false),
+    ("team_save_failure", item::UUID_TEAM_SAVE_FAILURE, "i", false),
+    ("team_save_success", item::UUID_TEAM_SAVE_SUCCESS, "ius", false),
+];
 
 const UUIDS: &[(&str, [u8; 16])] = &[
     ("antibot", item::UUID_ANTIBOT),
@@ -1153,8 +1415,38 @@ fn boundary_streams() -> Vec<(u32, Vec<u8>)> {
         for _ in 0..10 {
             w.int(3);
         }
+        w.int(item::INPUT_DIFF);
+        w.int(7);
+        for k in 0..10 {
+            w.int(k);
+        }
+        // a record of every kind with a cid field raises `cids()`
+        w.int(item::JOIN);
+        w.int(9);
+        w.int(item::INPUT_NEW);
+        w.int(12);
+        for _ in 0..10 {
+            w.int(0);
+        }
+        w.int(item::DROP);
+        w.int(15);
+        w.str(b"bye");
         fin(w);
     });
+    for (k, u) in [item::UUID_JOINVER7, item::UUID_PLAYER_READY, item::UUID_PLAYER_NAME].iter().enumerate() {
+        let u = *u;
+        add(2, &move |w| {
+            w.int(item::JOIN);
+            w.int(1);
+            w.int(item::EX);
+            w.raw(&u);
+            let mut p = W(vec![]);
+            p.int(20 + k as i32);
+            p.str(b"x");
+            w.data(&p.0);
+            w.int(item::FINISH);
+        });
+    }
     add(2, &|w| skip(w, -1));
     add(2, &|w| w.int(-12));
     add(2, &|w| w.int(i32::MIN));
@@ -1239,6 +1531,68 @@ impl Domain for D {
             emit(w, "run", ver, hdr, &s, "b");
             emit(w, "all2", ver, hdr, &s, "");
         }
+        // an item boundary exactly at (and next to) the point where the buffer is full, so that
+        // compaction / growth happen with offset == len, offset == len - 1, …
+        let targets: &[usize] = if thorough { &[8191, 8192, 8193, 16383, 16384, 16385, 24576] } else { &[8191, 8192, 8193, 16384] };
+        for &target in targets {
+            for first_big in [false, true] {
+                let mut s = W(vec![]);
+                s.int(item::PLAYER_NEW);
+                s.int(0);
+                s.int(5);
+                s.int(5);
+                s.int(item::PLAYER_NEW);
+                s.int(1);
+                s.int(7);
+                s.int(7);
+                if first_big {
+                    // one record larger than the buffer first (growth with offset == 0)
+                    s.int(item::MESSAGE);
+                    s.int(1);
+                    s.data(&rng.bytes(8200));
+                }
+                let want = target.saturating_sub(hdr2.len());
+                let p = s.0.len();
+                let mut done = false;
+                for vl in 1..=3usize {
+                    if want < p + 2 + vl {
+                        continue;
+                    }
+                    let n = want - p - 2 - vl;
+                    let mut t = W(vec![]);
+                    t.int(n as i32);
+                    if t.0.len() == vl {
+                        s.int(item::MESSAGE);
+                        s.int(0);
+                        s.data(&rng.bytes(n));
+                        done = true;
+                        break;
+                    }
+                }
+                if !done {
+                    continue;
+                }
+                s.int(1);
+                s.int(2);
+                s.int(-2);
+                s.int(0);
+                s.int(1);
+                s.int(1);
+                s.int(item::INPUT_NEW);
+                s.int(1);
+                for k in 0..10 {
+                    s.int(k);
+                }
+                s.int(item::FINISH);
+                emit(w, "run", 2, &hdr2, &s.0, "w");
+                emit(w, "file", 2, &hdr2, &s.0, "w");
+                for k in [target - 1, target, target + 1, 4096, 8192] {
+                    emit(w, "hash", 2, &hdr2, &s.0, &format!("s:{}", k));
+                }
+                emit(w, "hash", 2, &hdr2, &s.0, "l:4096,4096,4096,4096,4096,4096");
+                emit(w, "hash", 2, &hdr2, &s.0, &frag_random(&mut rng, target + 100));
+            }
+        }
         // exhaustive: every stream of 0, 1 (and, thorough, 2) bytes, both format versions
         for n in 0..=1 {
             writeln!(w, "sweep 2 {} {} -", to_hex(&hdr2), n).unwrap();
@@ -1268,11 +1622,18 @@ impl Domain for D {
             let s = gen_history(&mut rng, ver, size, big);
             let total = hdr.len() + s.len();
             emit(w, "run", ver, &hdr, &s, "w");
+            // the public `Reader` over a file / over a socket fed in pieces
+            if k % 2 == 0 {
+                emit(w, "file", ver, &hdr, &s, "w");
+            } else {
+                let f = frag_random(&mut rng, total);
+                emit(w, "file", ver, &hdr, &s, &f);
+            }
             emit(w, if total > 3000 { "hash" } else { "run" }, ver, &hdr, &s, "b");
             if total <= (if thorough { 1500 } else { 800 }) {
                 emit(w, "all2", ver, &hdr, &s, "");
             } else {
-                for _ in 0..(if thorough { 60 } else { 12 }) {
+                for _ in 0..(if thorough { 60 } else { 6 }) {
                     let k = rng.below(total as u64 + 1);
                     emit(w, "hash", ver, &hdr, &s, &format!("s:{}", k));
                 }
